@@ -23,6 +23,10 @@ TranslationError and the check reports a broken tie - it never guesses):
                                               loop and read inside it; in-place mutation in get_strategy_kwargs of an object it did not
                                               create; module-level mutable state; TaskProducer.next_operation must be one shared
                                               iterator under the lock                                           -> Ambient SharedState
+  site 40+ whole package                      PROCESS-WIDE STATE carried between runs: in-place mutations of module-level objects, of the return
+                                              value of an lru_cache'd function, of class-level attributes (process_state_scan), each classified
+                                              Memo / Registry / RunWritten with re-verified evidence; 70+ the lru_cache'd functions themselves
+                                              -> Gen_C13.gen_carried
   gen_cli_seed                                cli/commands/run/__init__.py: the `if generation_seed is None and not
                                               generation_deterministic: seed = Random().getrandbits(128) else: seed = generation_seed`
                                               statement, translated expression by expression
@@ -744,6 +748,697 @@ def cross_operation_sites(root: Path) -> list[dict]:
 
 
 # ----------------------------------------------------------------------------------------
+# sites 40+: PROCESS-WIDE MUTABLE STATE carried from one run to the next in the same process
+# ----------------------------------------------------------------------------------------
+# A *carrier* is an object that outlives a run: a module-level mutable object, the return value of an lru_cache'd function (a
+# process-wide singleton per argument tuple) or a class-level mutable attribute.  A *carried site* is a place in a function where
+# such an object is MUTATED (x[k] = v / x.attr = v / del x[k] / x.update(..) .append(..) .setdefault(..) .pop(..) ... / rebinding a
+# `global`), directly, through a local alias (`formats = get_default_format_strategies(); formats[k] = v`), through an element
+# fetched from it (`CACHE.setdefault(op, {})[k] = v`) or by passing it to a package function that mutates its parameter.
+# Every carried site must be classified in PROCESS_STATE_CLASSIFIED with evidence the scanner re-verifies:
+#   Memo      the content stored under a key is determined by the key (an lru_cache on a pure function; a cache keyed by the identity
+#             of a per-run object): whoever wrote the entry, a later run reads the same thing            -> safe
+#   Registry  written only by a public registration function the USER calls between runs (part of the configuration), never by
+#             code reachable from a run                                                                 -> safe
+#   RunWritten  anything else: what a run leaves behind depends on its configuration and a later run reads it -> UNSAFE
+# An unclassified hit is emitted as RunWritten (fail closed) and reported as a broken tie.
+PS_OUT_OF_SCOPE = {
+    "pytest/": "pytest integration (not the engine)",
+    "contrib/": "opt-in contrib hooks, not installed by default",
+    "cli/": "command line front end: option groups / custom handler lists, filled at import / plugin-load time, reporting only",
+    "python/": "python-level helpers, not on the request path",
+    "core/_verif.py": "verification hooks",
+}
+_MUTABLE_CTORS = {"dict", "list", "set", "defaultdict", "OrderedDict", "deque", "WeakKeyDictionary", "WeakValueDictionary", "WeakSet", "Counter", "ChainMap",
+                  "CaseInsensitiveDict", "bytearray"}
+_IMMUTABLE_INSTANCES = {"TypeVar", "ParamSpec", "Path", "NotSet", "Unresolvable", "Random", "Response", "compile", "frozenset", "tuple", "namedtuple", "getLogger",
+                        "Lock", "RLock", "local"}
+_ELEMENT_GETTERS = {"get", "setdefault", "__getitem__"}
+_CONFIG_TOKENS = ("config", "generation", "settings", "allow_x00", "codec", "mode", "modes", "generator", "override", "negative", "strategy_factory")
+
+
+def _ps_in_scope(rel: str) -> bool:
+    return not any(rel.startswith(pref) for pref in PS_OUT_OF_SCOPE)
+
+
+def _is_mutable_value(node) -> str | None:
+    if isinstance(node, (ast.Dict, ast.List, ast.Set, ast.DictComp, ast.ListComp, ast.SetComp)):
+        return "display"
+    if isinstance(node, ast.Call):
+        last = (dotted(node.func) or "?").split(".")[-1]
+        if last in _MUTABLE_CTORS:
+            return last
+        if last[:1].isupper() and last not in _IMMUTABLE_INSTANCES:
+            return "instance:" + last
+    return None
+
+
+def _cache_decorated(fn) -> bool:
+    for d in fn.decorator_list:
+        name = dotted(d.func) if isinstance(d, ast.Call) else dotted(d)
+        if name and name.split(".")[-1] in ("lru_cache", "cache"):
+            return True
+    return False
+
+
+def _module_stem(rel: str) -> str:
+    parts = rel[:-3].split("/")
+    return parts[-2] if parts[-1] == "__init__" and len(parts) > 1 else parts[-1]
+
+
+class _PsIndex:
+    """Carriers of the whole package (by name) + per-module import tables."""
+
+    def __init__(self, root: Path):
+        self.trees: dict[str, ast.Module] = {}
+        self.globals: dict[str, list[tuple[str, int, str]]] = {}     # NAME -> [(rel, line, kind)]
+        self.cached: dict[str, list[tuple[str, int, int, bool]]] = {}  # fname -> [(rel, line, nargs, mutable_return)]
+        self.class_attrs: dict[str, list[tuple[str, int, str]]] = {}  # attr -> [(rel, line, Class)]
+        self.toplevel_funcs: dict[str, list[tuple[str, ast.FunctionDef]]] = {}
+        self.imports: dict[str, dict[str, str]] = {}  # rel -> local name -> "module stem" (from X import name) or "" for module imports
+        self.shared_returning: dict[tuple[str, str], str] = {}  # (rel, function) -> the process-wide object it hands out (un-cached wrappers)
+        for p in sorted(root.rglob("*.py")):
+            rel = str(p.relative_to(root))
+            if not _ps_in_scope(rel):
+                continue
+            try:
+                tree = ast.parse(p.read_text())
+            except SyntaxError as exc:
+                raise TranslationError(f"{rel}: does not parse: {exc}") from None
+            self.trees[rel] = tree
+            imp: dict[str, str] = {}
+            for node in ast.walk(tree):
+                if isinstance(node, ast.ImportFrom):
+                    for a in node.names:
+                        imp[a.asname or a.name] = (node.module or "").split(".")[-1]
+                elif isinstance(node, ast.Import):
+                    for a in node.names:
+                        imp[(a.asname or a.name).split(".")[0]] = ""
+            self.imports[rel] = imp
+            for st in tree.body:
+                if isinstance(st, (ast.Assign, ast.AnnAssign)) and getattr(st, "value", None) is not None:
+                    kind = _is_mutable_value(st.value)
+                    tgt = st.targets[0] if isinstance(st, ast.Assign) else st.target
+                    if kind and isinstance(tgt, ast.Name) and tgt.id != "__all__":
+                        self.globals.setdefault(tgt.id, []).append((rel, st.lineno, kind))
+                if isinstance(st, (ast.FunctionDef, ast.AsyncFunctionDef)):
+                    self.toplevel_funcs.setdefault(st.name, []).append((rel, st))
+            for node in ast.walk(tree):
+                if isinstance(node, (ast.FunctionDef, ast.AsyncFunctionDef)) and _cache_decorated(node):
+                    rets = [r.value for r in ast.walk(node) if isinstance(r, ast.Return) and r.value is not None and not _inside_nested(node, r)]
+                    mutable = any(_is_mutable_value(r) is not None or isinstance(r, ast.Name) for r in rets)
+                    nargs = len(node.args.args) + len(node.args.kwonlyargs)
+                    self.cached.setdefault(node.name, []).append((rel, node.lineno, nargs, mutable))
+                if isinstance(node, ast.ClassDef):
+                    for st in node.body:
+                        if isinstance(st, (ast.Assign, ast.AnnAssign)) and getattr(st, "value", None) is not None:
+                            tgt = st.targets[0] if isinstance(st, ast.Assign) else st.target
+                            kind = _is_mutable_value(st.value)
+                            if kind and not kind.startswith("instance:") and isinstance(tgt, ast.Name) and tgt.id != "__slots__":
+                                self.class_attrs.setdefault(tgt.id, []).append((rel, st.lineno, node.name))
+
+    def cached_call(self, rel: str, call: ast.Call) -> str | None:
+        """Is this a call of an lru_cache'd function of the package?  Returns `file:function`."""
+        f = call.func
+        if isinstance(f, ast.Name) and f.id in self.cached:
+            for drel, _, _, _ in self.cached[f.id]:
+                if drel == rel or self.imports.get(rel, {}).get(f.id) == _module_stem(drel):
+                    return f"{drel}:{f.id}"
+        if isinstance(f, ast.Attribute) and f.attr in self.cached:
+            base = dotted(f.value)
+            if base is not None:
+                for drel, _, _, _ in self.cached[f.attr]:
+                    if base.split(".")[-1] == _module_stem(drel):
+                        return f"{drel}:{f.attr}"
+        return None
+
+    def global_carrier(self, rel: str, name: str) -> str | None:
+        if name not in self.globals:
+            return None
+        for drel, _, _ in self.globals[name]:
+            if drel == rel or self.imports.get(rel, {}).get(name) == _module_stem(drel):
+                return f"{drel}:{name}"
+        return None
+
+    def attr_carrier(self, node: ast.Attribute) -> str | None:
+        """`module.NAME` / `pkg.module.NAME` where NAME is a module-level carrier of that module."""
+        base = dotted(node.value)
+        if base is None or node.attr not in self.globals:
+            return None
+        for drel, _, _ in self.globals[node.attr]:
+            if base.split(".")[-1] == _module_stem(drel):
+                return f"{drel}:{node.attr}"
+        return None
+
+
+def _fn_params(fn) -> list[str]:
+    a = fn.args
+    return [x.arg for x in a.posonlyargs + a.args + a.kwonlyargs] + ([a.vararg.arg] if a.vararg else []) + ([a.kwarg.arg] if a.kwarg else [])
+
+
+def _config_names(fn) -> set[str]:
+    """Parameters / locals of a function that carry run configuration (by name or annotation), closed under local assignment."""
+    tainted = set()
+    a = fn.args
+    for x in a.posonlyargs + a.args + a.kwonlyargs:
+        ann = ast.unparse(x.annotation) if x.annotation is not None else ""
+        if any(tok in x.arg.lower() for tok in _CONFIG_TOKENS) or "Config" in ann or "GenerationMode" in ann or "StrategyFactory" in ann:
+            tainted.add(x.arg)
+    changed = True
+    while changed:
+        changed = False
+        for node in _ps_own_nodes(fn):
+            if isinstance(node, (ast.Assign, ast.AnnAssign, ast.AugAssign)) and getattr(node, "value", None) is not None:
+                if _mentions(node.value, tainted):
+                    for name in _bound_names(node):
+                        if name not in tainted:
+                            tainted.add(name)
+                            changed = True
+    return tainted
+
+
+def _mentions(node, names: set[str]) -> bool:
+    for n in ast.walk(node):
+        if isinstance(n, ast.Name) and n.id in names:
+            return True
+        if isinstance(n, ast.Attribute) and any(tok in n.attr.lower() for tok in ("config", "allow_x00", "codec")):
+            return True
+    return False
+
+
+def _ps_own_nodes(fn):
+    """Nodes of a function body without nested function / class definitions (and their bodies)."""
+    stack = [st for st in fn.body]
+    while stack:
+        node = stack.pop()
+        if isinstance(node, (ast.FunctionDef, ast.AsyncFunctionDef, ast.Lambda, ast.ClassDef)):
+            continue
+        yield node
+        stack.extend(ast.iter_child_nodes(node))
+
+
+class _FnScan:
+    """One function: which names may denote a process-wide object at which point, and where such an object is mutated."""
+
+    def __init__(self, idx: _PsIndex, rel: str, fn, cls: str | None):
+        self.idx, self.rel, self.fn, self.cls = idx, rel, fn, cls
+        self.params = _fn_params(fn)
+        self.locals: set[str] = set(self.params)
+        self.global_decl: set[str] = set()
+        for node in _ps_own_nodes(fn):
+            self.locals.update(_bound_names(node))
+            if isinstance(node, ast.Global):
+                self.global_decl.update(node.names)
+        self.locals -= self.global_decl
+        self.top = {id(st) for st in fn.body}
+        self.shared: dict[str, str] = {}  # local name -> carrier description (may-alias)
+        # nested (conditional / loop) bindings hold for the whole function; top-level ones are applied in order
+        changed = True
+        while changed:
+            changed = False
+            for node in _ps_own_nodes(fn):
+                if isinstance(node, (ast.Assign, ast.AnnAssign, ast.NamedExpr)) and getattr(node, "value", None) is not None and id(node) not in self.top:
+                    src = self.shared_root(node.value)
+                    if src is not None:
+                        for name in self._whole_name_targets(node):
+                            if name not in self.shared:
+                                self.shared[name] = src
+                                changed = True
+                if isinstance(node, (ast.For, ast.AsyncFor)):
+                    src = self._iter_elements(node.iter)
+                    if src is not None:
+                        for name in _bound_names(node):
+                            if name not in self.shared:
+                                self.shared[name] = src
+                                changed = True
+        self.sticky = dict(self.shared)
+
+    @staticmethod
+    def _whole_name_targets(node) -> list[str]:
+        if isinstance(node, ast.NamedExpr):
+            return [node.target.id]
+        tgt = node.targets if isinstance(node, ast.Assign) else [node.target]
+        return [t.id for t in tgt if isinstance(t, ast.Name)]
+
+    def _iter_elements(self, it) -> str | None:
+        if isinstance(it, ast.Call) and isinstance(it.func, ast.Attribute) and it.func.attr in ("values", "items"):
+            src = self.shared_root(it.func.value)
+            return None if src is None else src + " (element)"
+        return None
+
+    def shared_root(self, node) -> str | None:
+        """Carrier this expression may denote (the object itself or something stored inside it), else None."""
+        if isinstance(node, ast.Name):
+            if node.id in self.shared:
+                return self.shared[node.id]
+            if node.id not in self.locals or node.id in self.global_decl:
+                return self.idx.global_carrier(self.rel, node.id)
+            return None
+        if isinstance(node, ast.Attribute):
+            got = self.idx.attr_carrier(node)
+            if got is not None:
+                return got
+            # class-level mutable attribute through cls / self / the class name
+            base = dotted(node.value)
+            if node.attr in self.idx.class_attrs and base is not None:
+                for drel, _, cname in self.idx.class_attrs[node.attr]:
+                    if base in ("cls", cname) or (base == "self" and drel == self.rel and self.cls == cname):
+                        return f"{drel}:{cname}.{node.attr}"
+            return self.shared_root(node.value)
+        if isinstance(node, ast.Subscript):
+            return self.shared_root(node.value)
+        if isinstance(node, ast.Call):
+            c = self.idx.cached_call(self.rel, node)
+            if c is not None:
+                return c + "()"
+            target = _called_package_function(self.idx, self.rel, node)
+            if target is not None and target in self.idx.shared_returning:
+                return self.idx.shared_returning[target]
+            if isinstance(node.func, ast.Attribute) and node.func.attr in _ELEMENT_GETTERS:
+                src = self.shared_root(node.func.value)
+                return None if src is None else src
+            return None
+        if isinstance(node, ast.IfExp):
+            return self.shared_root(node.body) or self.shared_root(node.orelse)
+        if isinstance(node, ast.BoolOp):
+            for v in node.values:
+                got = self.shared_root(v)
+                if got is not None:
+                    return got
+        if isinstance(node, ast.NamedExpr):
+            return self.shared_root(node.value)
+        return None
+
+    def events(self):
+        """(node, victim expression, kind) for every in-place mutation in the function body, in source order, with the alias state
+        of that point (top-level rebinding to a fresh value kills an alias)."""
+        nodes = sorted(_ps_own_nodes(self.fn), key=lambda n: (getattr(n, "lineno", 0), getattr(n, "col_offset", 0)))
+        parents = {}
+        for parent in ast.walk(self.fn):
+            for child in ast.iter_child_nodes(parent):
+                parents[child] = parent
+        self.parents = parents
+        out = []
+        pending = []
+        for node in nodes:
+            # mutations first (the right-hand side of `x = f(x)` is evaluated before the binding)
+            if isinstance(node, (ast.Assign, ast.AugAssign, ast.AnnAssign)):
+                tgt = node.targets if isinstance(node, ast.Assign) else [node.target]
+                for t in tgt:
+                    for el in (t.elts if isinstance(t, (ast.Tuple, ast.List)) else [t]):
+                        if isinstance(el, (ast.Subscript, ast.Attribute)):
+                            out.append((node, el.value, "item/attribute assignment", getattr(node, "value", None), self.state_copy()))
+                        elif isinstance(el, ast.Name) and el.id in self.global_decl:
+                            out.append((node, None, f"rebinds module global `{el.id}`", getattr(node, "value", None), self.state_copy()))
+            elif isinstance(node, ast.Delete):
+                for t in node.targets:
+                    if isinstance(t, (ast.Subscript, ast.Attribute)):
+                        out.append((node, t.value, "del", None, self.state_copy()))
+            elif isinstance(node, ast.Call) and isinstance(node.func, ast.Attribute) and node.func.attr in _MUTATORS:
+                out.append((node, node.func.value, f".{node.func.attr}()", node, self.state_copy()))
+            if isinstance(node, ast.Call):
+                pending.append((node, self.state_copy()))
+            # then top-level bindings
+            if id(node) in self.top and isinstance(node, (ast.Assign, ast.AnnAssign)) and getattr(node, "value", None) is not None:
+                src = self.shared_root(node.value)
+                for name in self._whole_name_targets(node):
+                    if src is not None:
+                        self.shared[name] = src
+                    elif name in self.sticky:
+                        self.shared[name] = self.sticky[name]
+                    else:
+                        self.shared.pop(name, None)
+                        self.rebound_fresh.add(name)
+        self.calls = pending
+        return out
+
+    rebound_fresh: set
+
+    def state_copy(self):
+        return (dict(self.shared), set(self.rebound_fresh))
+
+
+def process_state_scan(root: Path) -> list[dict]:
+    """Every in-place mutation of a process-wide object in the package (outside PS_OUT_OF_SCOPE)."""
+    idx = _PsIndex(root)
+    # functions that hand out a process-wide object (`def defaults(): return get_default_format_strategies()`), to a fixpoint
+    for _ in range(4):
+        grew = False
+        for fname, defs in idx.toplevel_funcs.items():
+            for rel, fn in defs:
+                if (rel, fname) in idx.shared_returning or _cache_decorated(fn):
+                    continue
+                sc = _FnScan(idx, rel, fn, None)
+                sc.rebound_fresh = set()
+                sc.events()
+                for node in _ps_own_nodes(fn):
+                    if isinstance(node, ast.Return) and node.value is not None:
+                        src = sc.shared_root(node.value)
+                        if src is not None:
+                            idx.shared_returning[(rel, fname)] = f"{src} (through {fname}())"
+                            grew = True
+                            break
+        if not grew:
+            break
+    hits: list[dict] = []
+    param_mutators: dict[str, dict[str, set[int]]] = {}  # fname -> rel -> mutated parameter positions
+    scans = []
+    for rel, tree in idx.trees.items():
+        owner_cls = {}
+        for node in ast.walk(tree):
+            if isinstance(node, ast.ClassDef):
+                for st in node.body:
+                    if isinstance(st, (ast.FunctionDef, ast.AsyncFunctionDef)):
+                        owner_cls[st] = node.name
+        for fn in ast.walk(tree):
+            if not isinstance(fn, (ast.FunctionDef, ast.AsyncFunctionDef)):
+                continue
+            sc = _FnScan(idx, rel, fn, owner_cls.get(fn))
+            sc.rebound_fresh = set()
+            evs = sc.events()
+            scans.append((sc, evs))
+            tainted = _config_names(fn)
+            for node, victim, kind, value, (state, fresh) in evs:
+                saved = sc.shared
+                sc.shared = state
+                src = sc.shared_root(victim) if victim is not None else idx.global_carrier(rel, kind.split("`")[1])
+                if victim is None and src is None:
+                    src = f"{rel}:{kind.split('`')[1]} (module global)"
+                sc.shared = saved
+                if src is None:
+                    # a parameter mutated in place: remembered for the call sites
+                    r = _root_name(victim)
+                    if r in sc.params and r not in fresh and fn in [f for _, f in idx.toplevel_funcs.get(fn.name, [])]:
+                        param_mutators.setdefault(fn.name, {}).setdefault(rel, set()).add(sc.params.index(r))
+                    continue
+                hits.append(_ps_hit(sc, node, src, kind, value, tainted, via=None))
+    # parameters: closed under passing a parameter on to a parameter-mutating function of the package; then every call that hands a
+    # process-wide object to such a function is a mutation of that object
+    changed = True
+    rounds = 0
+    while changed and rounds < 6:
+        changed = False
+        rounds += 1
+        for sc, _ in scans:
+            for call, (state, fresh) in sc.calls:
+                target = _called_package_function(idx, sc.rel, call)
+                if target is None or target[1] not in param_mutators or target[0] not in param_mutators[target[1]]:
+                    continue
+                trel, tname = target
+                tfn = [f for r, f in idx.toplevel_funcs[tname] if r == trel][0]
+                tparams = _fn_params(tfn)
+                for pos in param_mutators[tname][trel]:
+                    arg = None
+                    if pos < len(call.args) and not any(isinstance(a, ast.Starred) for a in call.args[: pos + 1]):
+                        arg = call.args[pos]
+                    for k in call.keywords:
+                        if k.arg == tparams[pos]:
+                            arg = k.value
+                    if arg is None:
+                        continue
+                    r = _root_name(arg)
+                    saved = sc.shared
+                    sc.shared = state
+                    src = sc.shared_root(arg)
+                    sc.shared = saved
+                    if src is not None:
+                        h = _ps_hit(sc, call, src, f"passed to {tname}(), which mutates its parameter `{tparams[pos]}` in place", call, _config_names(sc.fn), via=tname)
+                        if not any(x["key"] == h["key"] and x["line"] == h["line"] for x in hits):
+                            hits.append(h)
+                            changed = True
+                    elif r in sc.params and r not in fresh and any(f is sc.fn for _, f in idx.toplevel_funcs.get(sc.fn.name, [])):
+                        cur = param_mutators.setdefault(sc.fn.name, {}).setdefault(sc.rel, set())
+                        i = sc.params.index(r)
+                        if i not in cur:
+                            cur.add(i)
+                            changed = True
+    hits.sort(key=lambda h: (h["rel"], h["line"], h["carrier"]))
+    return hits
+
+
+def _called_package_function(idx: _PsIndex, rel: str, call: ast.Call):
+    f = call.func
+    if isinstance(f, ast.Name) and f.id in idx.toplevel_funcs:
+        for drel, _ in idx.toplevel_funcs[f.id]:
+            if drel == rel or idx.imports.get(rel, {}).get(f.id) == _module_stem(drel):
+                return drel, f.id
+    if isinstance(f, ast.Attribute) and f.attr in idx.toplevel_funcs:
+        base = dotted(f.value)
+        if base is not None and base.split(".")[0] not in ("self", "cls"):
+            for drel, _ in idx.toplevel_funcs[f.attr]:
+                if base.split(".")[-1] == _module_stem(drel):
+                    return drel, f.attr
+    return None
+
+
+def _ps_hit(sc: _FnScan, node, src: str, kind: str, value, tainted: set[str], via) -> dict:
+    # configuration dependence, syntactically: the stored value / key / arguments mention run configuration, or the statement is
+    # guarded by a condition that does
+    dep = []
+    if value is not None and _mentions(value, tainted):
+        dep.append("stored value")
+    if isinstance(node, (ast.Assign, ast.AugAssign, ast.AnnAssign)):
+        tgt = node.targets if isinstance(node, ast.Assign) else [node.target]
+        if any(isinstance(t, ast.Subscript) and _mentions(t.slice, tainted) for t in tgt):
+            dep.append("key")
+    cur = node
+    while cur in sc.parents:
+        par = sc.parents[cur]
+        if isinstance(par, (ast.If, ast.While)) and cur is not par.test and _mentions(par.test, tainted):
+            dep.append(f"guard `{ast.unparse(par.test)[:50]}`")
+            break
+        cur = par
+    return {
+        "rel": sc.rel, "line": node.lineno, "function": sc.fn.name, "carrier": src, "kind": kind,
+        "key": (sc.rel, sc.fn.name, src), "config_dependent_evidence": dep, "via": via,
+        "stmt": ast.unparse(node)[:110].replace("\n", " "),
+    }
+
+
+ALL_PHASES = ["Examples", "Coverage", "Fuzzing", "Stateful"]
+_H = "specs/openapi/_hypothesis.py"
+# (file, function, carrier) -> (class, evidence the scanner re-verifies, phases, reaches a request, why)
+PROCESS_STATE_CLASSIFIED: dict[tuple[str, str, str], tuple[str, str, list[str], bool, str]] = {
+    (_H, "_get_body_strategy", f"{_H}:_BODY_STRATEGIES_CACHE"): (
+        "Memo", "memo_identity_key", ALL_PHASES, True,
+        "WeakKeyDictionary keyed by the OpenAPIBody object (identity) then by the strategy factory; the body objects are created with the operations of a run"),
+    (_H, "get_parameters_strategy", f"{_H}:_PARAMETER_STRATEGIES_CACHE"): (
+        "Memo", "memo_identity_key", ALL_PHASES, True,
+        "WeakKeyDictionary keyed by the APIOperation object (identity) then by (factory, location, excluded names); operations are created per run"),
+    ("specs/openapi/formats.py", "register_string_format", "specs/openapi/formats.py:STRING_FORMATS"): (
+        "Registry", "registry_api", ALL_PHASES, True, "public API schemathesis.openapi.format(): called by the user, never from the package"),
+    ("specs/openapi/formats.py", "unregister_string_format", "specs/openapi/formats.py:STRING_FORMATS"): (
+        "Registry", "registry_api", ALL_PHASES, True, "public API schemathesis.openapi.unregister_string_format()"),
+    ("specs/openapi/media_types.py", "register_media_type", "specs/openapi/media_types.py:MEDIA_TYPES"): (
+        "Registry", "registry_api", ALL_PHASES, True, "public API schemathesis.openapi.media_type()"),
+    ("specs/openapi/media_types.py", "unregister_all", "specs/openapi/media_types.py:MEDIA_TYPES"): (
+        "Registry", "registry_api", ALL_PHASES, True, "test helper, never called from the package"),
+    ("specs/graphql/scalars.py", "scalar", "specs/graphql/scalars.py:CUSTOM_SCALARS"): (
+        "Registry", "registry_api", ALL_PHASES, True, "public API schemathesis.graphql.scalar()"),
+    ("hooks.py", "_register_spec", "hooks.py:HookDispatcher._specs"): (
+        "Registry", "import_time:register_spec", ALL_PHASES, False, "hook specifications, registered by decorators while hooks.py is imported"),
+    ("core/output/sanitization.py", "configure", "core/output/sanitization.py:_DEFAULT_SANITIZATION_CONFIG"): (
+        "Registry", "registry_api", ALL_PHASES, False, "public API schemathesis.sanitization.configure(); report output only"),
+    ("core/output/sanitization.py", "extend", "core/output/sanitization.py:_DEFAULT_SANITIZATION_CONFIG"): (
+        "Registry", "registry_api", ALL_PHASES, False, "public API schemathesis.sanitization.extend(); report output only"),
+}
+# lru_cache'd functions of the package: (file, function) -> (phases, reaches a request, why the content of an entry is a function of its key)
+CACHED_CLASSIFIED: dict[tuple[str, str], tuple[list[str], bool, str]] = {
+    ("core/curl.py", "get_excluded_headers"): (ALL_PHASES, False, "constant; curl rendering in reports"),
+    ("core/deserialization.py", "get_yaml_loader"): (ALL_PHASES, False, "constant class; YAML loading of schemas / responses"),
+    ("core/media_types.py", "parse"): (ALL_PHASES, True, "pure function of the media type string"),
+    ("generation/coverage.py", "cached_draw"): (["Coverage"], True, "AMBIENT: the entry is drawn by the unseeded generate_one and cached by strategy identity (finding F2)"),
+    ("generation/hypothesis/examples.py", "default_settings"): (["Examples", "Coverage"], True, "constant hypothesis.settings"),
+    ("generation/stateful/state_machine.py", "_to_test_case"): (["Stateful"], True, "keyed by the state machine class (one per run)"),
+    ("graphql/loaders.py", "get_introspection_query"): (ALL_PHASES, False, "constant; schema loading"),
+    ("graphql/loaders.py", "get_introspection_query_ast"): (ALL_PHASES, False, "constant; schema loading"),
+    ("schemas.py", "get_full_path"): (ALL_PHASES, True, "pure function of (base path, path)"),
+    ("specs/graphql/scalars.py", "get_extra_scalar_strategies"): (ALL_PHASES, True, "constant dict of strategies; merged into a fresh dict by its only caller"),
+    ("specs/openapi/examples.py", "load_external_example"): (["Examples"], True, "externalValue fetched once per URL (the remote is assumed deterministic)"),
+    ("specs/openapi/expressions/parser.py", "parse"): (["Stateful"], True, "pure function of the expression string"),
+    ("specs/openapi/formats.py", "get_default_format_strategies"): (ALL_PHASES, True, "constant dict of strategies; merged into a fresh dict by its only caller"),
+    ("specs/openapi/negative/__init__.py", "get_validator"): (ALL_PHASES, True, "keyed by the schema wrapped in CacheKey"),
+    ("specs/openapi/negative/__init__.py", "split_schema"): (ALL_PHASES, True, "keyed by the schema wrapped in CacheKey"),
+    ("specs/openapi/patterns.py", "update_quantifier"): (ALL_PHASES, True, "pure function of (pattern, min, max)"),
+    ("specs/openapi/references.py", "load_file"): (ALL_PHASES, True, "file content by location (the file is assumed unchanged during the process)"),
+    ("specs/openapi/references.py", "load_file_uri"): (ALL_PHASES, True, "file content by location"),
+    ("specs/openapi/stateful/__init__.py", "make_response_filter"): (["Stateful"], True, "pure function of (status code, all status codes)"),
+}
+
+
+def _verify_ps_evidence(idx: _PsIndex, hit: dict, evidence: str) -> str | None:
+    """None when the evidence for the classification still holds, else what is wrong."""
+    rel, fname = hit["rel"], hit["function"]
+    if evidence == "memo_identity_key":
+        cname = hit["carrier"].split(":")[-1]
+        kinds = [k for r, _, k in idx.globals.get(cname, []) if r == rel]
+        if kinds != ["WeakKeyDictionary"]:
+            return f"`{cname}` is no longer a WeakKeyDictionary (identity-keyed, entries die with the run's objects)"
+        fn = functions(idx.trees[rel]).get(fname)
+        params = _fn_params(fn) if fn is not None else []
+        ok = False
+        for call in calls_in(fn) if fn is not None else []:
+            if isinstance(call.func, ast.Attribute) and call.func.attr == "setdefault" and dotted(call.func.value) == cname:
+                ok = len(call.args) == 2 and isinstance(call.args[0], ast.Name) and call.args[0].id in params and isinstance(call.args[1], ast.Dict) and not call.args[1].keys
+        if not ok:
+            return f"the entry is no longer created by `{cname}.setdefault(<parameter object>, {{}})`"
+        if hit["kind"] not in ("item/attribute assignment", ".setdefault()"):
+            return f"unexpected kind of mutation: {hit['kind']}"
+        return None
+    if evidence == "registry_api":
+        names = {fname}
+        for st in idx.trees[rel].body:
+            if isinstance(st, ast.Assign) and isinstance(st.value, ast.Name) and st.value.id == fname:
+                names |= {t.id for t in st.targets if isinstance(t, ast.Name)}
+        for crel, tree in idx.trees.items():
+            for call in calls_in(tree):
+                target = _called_package_function(idx, crel, call)
+                if target == (rel, fname):
+                    return f"the registration function is now called from the package itself ({crel}:{call.lineno})"
+                f = call.func
+                if crel == rel and isinstance(f, ast.Name) and f.id in names:
+                    return f"the registration function is now called from the package itself ({crel}:{call.lineno})"
+        return None
+    if evidence.startswith("import_time:"):
+        outer = evidence.split(":", 1)[1]
+        for crel, tree in idx.trees.items():
+            in_fn = {id(c) for fn in ast.walk(tree) if isinstance(fn, (ast.FunctionDef, ast.AsyncFunctionDef)) for st in fn.body for c in ast.walk(st) if isinstance(c, ast.Call)}
+            for call in calls_in(tree):
+                name = dotted(call.func) or ""
+                if name.split(".")[-1] == outer and id(call) in in_fn:
+                    return f"{outer} is now called at run time ({crel}:{call.lineno}), not only while the module is imported"
+        return None
+    return f"unknown evidence kind {evidence}"
+
+
+def _cached_impurity(idx: _PsIndex, rel: str, fn, written: set[str]) -> str | None:
+    """Why the content of an entry of this lru_cache may not be a function of its key (syntactic)."""
+    params = set(_fn_params(fn))
+    for node in ast.walk(fn):
+        if isinstance(node, ast.Name) and isinstance(node.ctx, ast.Load) and node.id not in params:
+            g = idx.global_carrier(rel, node.id)
+            if g is not None and g in written:
+                return f"reads `{node.id}`, a process-wide object that is written elsewhere"
+        if isinstance(node, ast.Attribute) and any(tok in node.attr.lower() for tok in ("allow_x00", "codec")):
+            return f"reads configuration `{ast.unparse(node)}` that is not part of the key"
+    return None
+
+
+def process_state_sites(root: Path, generate_one_is_ambient: bool) -> tuple[list[dict], list[str]]:
+    """The carried sites of today's source (Gen_C13.gen_carried) + the problems (unclassified / changed evidence)."""
+    idx = _PsIndex(root)
+    hits = process_state_scan(root)
+    problems: list[str] = []
+    sites: list[dict] = []
+    groups: dict[tuple, list[dict]] = {}
+    for h in hits:
+        groups.setdefault(h["key"], []).append(h)
+    next_id = 40
+    written = {h["carrier"] for h in hits}
+    for key in sorted(groups):
+        hs = groups[key]
+        h = hs[0]
+        where = f"{h['rel']}:{','.join(str(x['line']) for x in hs)} {h['function']}: {h['kind']} on {h['carrier']} `{h['stmt'][:70]}`"
+        dep = sorted({d for x in hs for d in x["config_dependent_evidence"]})
+        cls_entry = PROCESS_STATE_CLASSIFIED.get(key)
+        if cls_entry is None:
+            problems.append(
+                f"unclassified mutation of process-wide state: {where}"
+                + (f" - depends on run configuration through: {', '.join(dep)}" if dep else " - no syntactic dependence on run configuration found")
+                + "; what one run writes here is read by every later run in the same process"
+            )
+            sites.append({"id": next_id, "cclass": "RunWritten", "phases": ALL_PHASES, "in_request": True,
+                          "where": where + " - UNCLASSIFIED" + (f", configuration-dependent ({', '.join(dep)})" if dep else ""), "key": list(key)})
+        else:
+            cclass, evidence, phases, in_request, why = cls_entry
+            bad = None
+            for x in hs:
+                bad = bad or _verify_ps_evidence(idx, x, evidence)
+            if bad is not None:
+                problems.append(f"process-wide state {where}: classified {cclass} ({why}) but {bad}")
+                cclass = "RunWritten"
+            sites.append({"id": next_id, "cclass": cclass, "phases": phases, "in_request": in_request, "where": f"{where} - {why}", "key": list(key)})
+        next_id += 1
+    for key in sorted(PROCESS_STATE_CLASSIFIED):
+        if key not in groups:
+            problems.append(f"classified process-wide mutation disappeared (re-read the site): {key[0]} {key[1]} on {key[2]}")
+    # the lru_cache'd functions themselves
+    next_id = max(70, next_id)
+    seen = set()
+    for fname in sorted(idx.cached, key=lambda n: sorted(idx.cached[n])):
+        pass
+    entries = sorted((rel, line, fname, nargs, mutable) for fname, lst in idx.cached.items() for rel, line, nargs, mutable in lst)
+    for rel, line, fname, nargs, mutable in entries:
+        seen.add((rel, fname))
+        fn = [n for n in ast.walk(idx.trees[rel]) if isinstance(n, (ast.FunctionDef, ast.AsyncFunctionDef)) and n.name == fname and n.lineno == line][0]
+        cls_entry = CACHED_CLASSIFIED.get((rel, fname))
+        where = f"{rel}:{line} @lru_cache {fname}({nargs} argument{'s' if nargs != 1 else ''})" + (", returns a mutable object" if mutable else "")
+        if cls_entry is None:
+            problems.append(f"unclassified lru_cache (process-wide memo): {where}; is the content of an entry a function of its key?")
+            sites.append({"id": next_id, "cclass": "RunWritten", "phases": ALL_PHASES, "in_request": True, "where": where + " - UNCLASSIFIED", "key": [rel, fname]})
+        else:
+            phases, in_request, why = cls_entry
+            cclass = "Memo"
+            if why.startswith("AMBIENT"):
+                # the memo of an unseeded draw: whoever runs first decides the content (unless generate_one became seeded)
+                cclass = "RunWritten" if generate_one_is_ambient else "Memo"
+            else:
+                bad = _cached_impurity(idx, rel, fn, written)
+                if bad is not None:
+                    problems.append(f"{where}: classified as a pure memo ({why}) but {bad}")
+                    cclass = "RunWritten"
+            sites.append({"id": next_id, "cclass": cclass, "phases": phases, "in_request": in_request, "where": f"{where} - {why}", "key": [rel, fname]})
+        next_id += 1
+    for key in sorted(CACHED_CLASSIFIED):
+        if key not in seen:
+            problems.append(f"classified lru_cache disappeared (re-read the site): {key[0]} {key[1]}")
+    return sites, problems
+
+
+def _module_name(rel: str) -> str:
+    parts = rel[:-3].split("/")
+    if parts[-1] == "__init__":
+        parts = parts[:-1]
+    return ".".join(["schemathesis"] + parts)
+
+
+def snapshot_carriers(root: Path, carried: list[dict]) -> list[dict]:
+    """The process-wide containers whose content the runner snapshots around every run: every module-level mutable container and
+    the return value of every zero-argument lru_cache'd function that returns a mutable object.  Each is tied to its carried site
+    (class Memo / Registry / RunWritten); a container that no code mutates according to the scan is a Constant (ids 100+)."""
+    idx = _PsIndex(root)
+    by_carrier: dict[str, dict] = {}
+    for c in carried:
+        if c["id"] < 70:
+            by_carrier.setdefault(c["key"][2], c)
+        else:
+            by_carrier.setdefault(f"{c['key'][0]}:{c['key'][1]}()", c)
+    out = []
+    next_const = 100
+    for name in sorted(idx.globals):
+        for rel, line, kind in sorted(idx.globals[name]):
+            if kind.startswith("instance:"):
+                continue
+            site = by_carrier.get(f"{rel}:{name}")
+            if site is None:
+                out.append({"id": next_const, "cclass": "Constant", "module": _module_name(rel), "name": name, "call": False, "where": f"{rel}:{line} {name}"})
+                next_const += 1
+            else:
+                out.append({"id": site["id"], "cclass": site["cclass"], "module": _module_name(rel), "name": name, "call": False, "where": f"{rel}:{line} {name}"})
+    for fname in sorted(idx.cached):
+        for rel, line, nargs, mutable in sorted(idx.cached[fname]):
+            site = by_carrier.get(f"{rel}:{fname}()")
+            if nargs == 0 and mutable and site is not None:
+                out.append({"id": site["id"], "cclass": site["cclass"], "module": _module_name(rel), "name": fname, "call": True, "where": f"{rel}:{line} {fname}()"})
+    return out
+
+
+def render_csite(s: dict) -> str:
+    phases = "[" + "; ".join(s["phases"]) + "]"
+    return f"mkCSite {s['id']} {s['cclass']} {phases} {'true' if s['in_request'] else 'false'}"
+
+
+# ----------------------------------------------------------------------------------------
 # CLI seed selection
 # ----------------------------------------------------------------------------------------
 def _cli_expr(node, where) -> str:
@@ -939,6 +1634,8 @@ def translate(root: Path | None = None) -> dict:
     sites += cross_operation_sites(root)
     cli_body, cli_where = cli_seed(root)
     problems = []
+    carried, ps_problems = process_state_sites(root, generate_one_tag(root)[0][0] == "Ambient")
+    problems += ps_problems
     try:
         prims = check_primitives(root)
     except TranslationError as exc:  # the plan is still emitted (so that the proofs see it); the check reports the broken tie
@@ -967,9 +1664,19 @@ def translate(root: Path | None = None) -> dict:
         "Definition gen_cli_seed (given : option N) (deterministic : bool) (fresh : N) : option N :=",
         f"  {cli_body}.",
         "",
+        "(* Process-wide mutable state that generation code writes and reads (carried from one run to the next in the same process):",
+        "   40+ = in-place mutations of module-level objects / return values of lru_cache-d functions / class-level attributes,",
+        "   70+ = the lru_cache-d functions themselves.  Memo / Registry are safe, RunWritten is not (Model_C13.cclass). *)",
+        "Definition gen_carried : list csite := [",
     ]
+    for i, c in enumerate(carried):
+        sep = ";" if i + 1 < len(carried) else ""
+        lines.append(f"  (* {clean_comment(c['where'])} *)")
+        lines.append(f"  {render_csite(c)}{sep}")
+    lines += ["].", ""]
     text = "\n".join(lines)
-    return {"text": text, "sites": sites, "cli": cli_body, "primitives": prims, "problems": problems}
+    return {"text": text, "sites": sites, "cli": cli_body, "primitives": prims, "problems": problems, "carried": carried,
+            "snapshot_carriers": snapshot_carriers(root, carried)}
 
 
 def write_gen(target: Path, text: str) -> bool:
